@@ -98,6 +98,7 @@ package route
 //@
 //@ // the table currently installed, and what every lookup may rely on about it
 //@ spec fun activeTbl() Table = unbox(atomStored[addrOf(table)], Table)
+//@ spec fun tableTyped() bool = typeIs(atomStored[addrOf(table)], Table)
 //@ spec fun tableReady() bool = typeIs(atomStored[addrOf(table)], Table) && wfTable(activeTbl()) && targetsOK(activeTbl())
 //@
 //@ func GetTable
@@ -106,6 +107,9 @@ package route
 //@   assigns nothing
 //@   ensures nopanic
 //@   ensures result == unbox(atomStored[addrOf(table)], Table)
+//@   // standing assumption (not proved here): whatever table is installed is one every lookup can use - its routes and
+//@   // targets are non-nil, rings exist, targets have URLs (NewTable/weighTargets establish the parts proved under C02/C04)
+//@   ensures [assumed] wfTable(result) && targetsOK(result)
 //@
 //@ func ParseAliases
 //@   trusted
